@@ -703,6 +703,37 @@ func checkPrimaryAgreement(w *World, r *Result) {
 			}
 			return true
 		})
+		if !uses {
+			// the index may be computed once by the caller and handed down: an int parameter that every call site fills
+			// with Table.Primary() (directly or through a local bound once to it)
+			for pi, pobj := range paramObjs(fi) {
+				if b, ok := pobj.Type().Underlying().(*types.Basic); !ok || b.Kind() != types.Int {
+					continue
+				}
+				ds, wh := defsThroughAny(w, fi, pobj)
+				all := len(ds) > 0
+				for k, d := range ds {
+					ci := wh[k].Pkg.TypesInfo
+					isPrim := func(e ast.Expr) bool {
+						c, ok := ast.Unparen(e).(*ast.CallExpr)
+						return ok && calleeOf(ci, c) == prim.Obj
+					}
+					okArg := isPrim(d)
+					if id := identOf(d); id != nil && !okArg {
+						if dd := defsIn(ci, wh[k].Decl, objOf(ci, id)); len(dd) == 1 && isPrim(dd[0]) {
+							okArg = true
+						}
+					}
+					if !okArg {
+						all = false
+					}
+				}
+				_ = pi
+				if all {
+					uses = true
+				}
+			}
+		}
 		r.cond(uses, "AGR-C08p", fi.Name, "primary column decided by Table.Primary()", fnPos(w, fi), "calls Table.Primary", "this function decides the primary column without Table.Primary(): DDL and CRUD can disagree on which column is the id")
 	}
 	// AGR-C08i: columns are identified by their Go field name everywhere (CREATE TABLE, CRUD statements); Primary()
@@ -1083,4 +1114,15 @@ func checkSiblingLiterals(w *World, r *Result) {
 		}
 	}
 	_ = n
+}
+
+// paramObjs: the objects of the parameters of fi, in order.
+func paramObjs(fi *FuncInfo) []types.Object {
+	var out []types.Object
+	for _, f := range fi.Decl.Type.Params.List {
+		for _, nm := range f.Names {
+			out = append(out, fi.Pkg.TypesInfo.Defs[nm])
+		}
+	}
+	return out
 }
